@@ -129,7 +129,9 @@ def parseCfg (toks : List String) (c : VCfg) : Option VCfg := do
     | some "released" => some false
     | some "live" => some true
     | some _ => none
-  pure { thresholdOp := t, rotateOp := r, gcFidOp := f, gcOffOp := o, gcChecksBucket := b, postCheckLive := pc }
+  let ml ← bl "vlog.gcMissIsLive" c.gcMissIsLive
+  pure { thresholdOp := t, rotateOp := r, gcFidOp := f, gcOffOp := o, gcChecksBucket := b, postCheckLive := pc,
+         gcMissIsLive := ml }
 
 /-- crash image check: reopen, GC every sealed file of every bucket (two rounds), compare dumps -/
 def gcAll (c : VCfg) (s : St) : St :=
